@@ -102,19 +102,50 @@ def oracle_pixels(one_based, ta, chunk):
 
 
 # ------------------------------------------------------------------ implementation side (worker process)
-def rec_df(names, anchor, xname, chunk, decode=True, with_x=True, with_count=None):
+POS_DTYPES = {"int64": np.int64, "int32": np.int32, "uint32": np.uint32}
+
+
+def chrom_column(names, values, how):
+    """representation of a chromosome-name column: object strings or a pandas Categorical whose category list is in
+    bin order / alphabetical / reversed / has unused extras / is only the subset that occurs (other names -> NaN -> dropped)"""
+    if how in (None, "object"):
+        return values, None
+    present = set(values)
+    if how == "cat_bin":
+        cats = list(names) + ([UNK] if UNK in present else [])
+    elif how == "cat_alpha":
+        cats = sorted(list(names) + ([UNK] if UNK in present else []))
+    elif how == "cat_rev":
+        cats = (list(names) + ([UNK] if UNK in present else []))[::-1]
+    elif how == "cat_extra":
+        cats = ["aaa_unused"] + sorted(names, reverse=True) + ["zzz_unused"] + ([UNK] if UNK in present else [])
+    elif how == "cat_subset":
+        cats = sorted(n for n in present if n != UNK)      # UNK is not a category: becomes NaN, i.e. an unlisted chromosome
+    else:
+        raise AssertionError(how)
+    return values, pd.CategoricalDtype(cats)
+
+
+def rec_df(names, anchor, xname, chunk, decode=True, with_x=True, with_count=None, chrom_repr="object", pos_dtype="int64"):
     nm = (lambda c: names[c] if c >= 0 else UNK) if decode else (lambda c: c)
-    d = {"chrom1": [nm(r[0]) for r in chunk], anchor + "1": np.array([r[1] for r in chunk], dtype=np.int64)}
+    pdt = POS_DTYPES[pos_dtype or "int64"]
+    c1 = [nm(r[0]) for r in chunk]
+    c2 = [nm(r[3]) for r in chunk]
+    d = {"chrom1": c1, anchor + "1": np.array([r[1] for r in chunk], dtype=pdt)}
     if with_x:
         d[xname + "1"] = np.array([r[2] for r in chunk], dtype=np.int64)
-    d["chrom2"] = [nm(r[3]) for r in chunk]
-    d[anchor + "2"] = np.array([r[4] for r in chunk], dtype=np.int64)
+    d["chrom2"] = c2
+    d[anchor + "2"] = np.array([r[4] for r in chunk], dtype=pdt)
     if with_x:
         d[xname + "2"] = np.array([r[5] for r in chunk], dtype=np.int64)
     df = pd.DataFrame(d)
     if not decode:
         df["chrom1"] = df["chrom1"].astype(np.int64)
         df["chrom2"] = df["chrom2"].astype(np.int64)
+    elif chrom_repr not in (None, "object"):
+        _, dt = chrom_column(names, c1 + c2, chrom_repr)     # one dtype for both columns (reflection swaps their values)
+        df["chrom1"] = pd.Categorical(c1, dtype=dt)
+        df["chrom2"] = pd.Categorical(c2, dtype=dt)
     if with_count is not None:
         df["count"] = np.array(with_count, dtype=np.int64)
     return df
@@ -157,7 +188,8 @@ def run_sanitize(bins, names, case):
     except Exception as e:  # noqa: BLE001
         return ["ctor:" + classify(e)]
     for chunk in case["chunks"]:
-        df = rec_df(names, anchor, xname, chunk, decode=o["decode"], with_x=o["with_x"])
+        df = rec_df(names, anchor, xname, chunk, decode=o["decode"], with_x=o["with_x"],
+                    chrom_repr=o.get("chrom_repr"), pos_dtype=o.get("pos_dtype"))
         try:
             out = f(df)
             rows = rows_out(names, anchor, xname, out, decode=o["decode"], with_x=o["with_x"])
@@ -169,23 +201,31 @@ def run_sanitize(bins, names, case):
 
 
 def run_pixels(bins, case):
-    from cooler.create import sanitize_pixels
+    """-> list per chunk: 'BadInputError' | {'rows': [...], 'agg': [[b1,b2,sum]...]}"""
+    from cooler.create import aggregate_records, sanitize_pixels
     o = case["opts"]
     kw = dict(is_one_based=bool(o["one_based"]), tril_action=o["tril"], sort=bool(o["sort"]))
     if o["with_x"]:
         kw["sided_fields"] = ("x",)
     f = sanitize_pixels(bins, **kw)
+    bdt = POS_DTYPES[o.get("pos_dtype") or "int64"]
+    vdt = np.float64 if o.get("val_dtype") == "float" else np.int64
     res = []
     for chunk in case["chunks"]:
-        d = {"bin1_id": np.array([r[0] for r in chunk], dtype=np.int64), "bin2_id": np.array([r[1] for r in chunk], dtype=np.int64)}
+        d = {"bin1_id": np.array([r[0] for r in chunk], dtype=bdt), "bin2_id": np.array([r[1] for r in chunk], dtype=bdt)}
         if o["with_x"]:
             d["x1"] = np.array([r[2] for r in chunk], dtype=np.int64)
             d["x2"] = np.array([r[3] for r in chunk], dtype=np.int64)
-        d["count"] = np.array([r[4] for r in chunk], dtype=np.int64)
+        d["count"] = np.array([r[4] for r in chunk], dtype=vdt)
         try:
             out = f(pd.DataFrame(d))
-            res.append([[int(t.bin1_id), int(t.bin2_id), int(t.x1) if o["with_x"] else 0, int(t.x2) if o["with_x"] else 0, int(t.count)]
-                        for t in out.itertuples(index=False)])
+            rows = [[int(t.bin1_id), int(t.bin2_id), int(t.x1) if o["with_x"] else 0, int(t.x2) if o["with_x"] else 0, int(t.count)]
+                    for t in out.itertuples(index=False)]
+            if any(float(t.count) != int(t.count) for t in out.itertuples(index=False)):
+                rows = "non-integral value"
+            agg = aggregate_records(sort=True, count=False, agg={"count": "sum"})(out) if len(out) else None
+            aggl = [] if agg is None else [[int(a), int(b_), int(c)] for a, b_, c in zip(agg["bin1_id"], agg["bin2_id"], agg["count"])]
+            res.append({"rows": rows, "agg": aggl})
         except Exception as e:  # noqa: BLE001
             res.append(classify(e))
     return res
@@ -329,7 +369,8 @@ def model_expr(case):
                 f"None => None | Some rs => Some (rs, aggregate_records rs, let bs := gs_binsize blocks in collect (map (sanitize1_bs bs blocks {C.b(o['one_based'])} {C.b(o['validate'])} {ta}) ch)) end) {chunks}")
     if case["fn"] == "sanitize_pixels":
         chunks = C.lst([C.lst([coq_pxrec(r) for r in ch]) for ch in case["chunks"]])
-        return f"map (sanitize_pixels {C.b(o['one_based'])} {ta}) {chunks}"
+        return (f"map (fun ch => match sanitize_pixels {C.b(o['one_based'])} {ta} ch with None => None "
+                f"| Some rs => Some (rs, aggregate_values rs) end) {chunks}")
     if case["fn"] == "cload_pairs":
         chunks = C.lst([C.lst([coq_rec(r) for r in ch]) for ch in case["chunks"]])
         return f"cload_pairs blocks {C.b(not o['one_based'])} {ta} {chunks}"
@@ -427,6 +468,12 @@ def gen_record_cases(rng, widths, n_sets, quick):
             opts["decode"] = False
         if rng.random() < 0.06:
             opts["validate"] = False
+        # representation of the input columns: chromosome names as strings or as categoricals in various category orders,
+        # positions as int64 / int32 / uint32 (unsigned only where every position is representable and validation is on)
+        opts["chrom_repr"] = rng.choice(["object", "object", "cat_bin", "cat_alpha", "cat_alpha", "cat_rev", "cat_extra", "cat_subset"]) if opts["decode"] else "object"
+        opts["pos_dtype"] = rng.choice(["int64", "int64", "int32", "uint32"])
+        if opts["pos_dtype"] == "uint32" and (not opts["validate"] or any(r[1] < 0 or r[4] < 0 for r in recs)):
+            opts["pos_dtype"] = "int32"
         for cname, chunks in chunkings(rng, recs):
             if quick and cname != "whole" and rng.random() < 0.5:
                 continue
@@ -450,8 +497,10 @@ def gen_exhaustive_edges(widths):
                     if swap:
                         r = r[3:] + r[:3]
                     label = "valid" if 0 <= a < L else ("edge" if a == L else "out")
+                    reprs = ("object", "cat_alpha", "cat_rev", "cat_bin", "cat_extra", "cat_subset")
                     cases.append({"fn": "sanitize_records", "widths": widths,
-                                  "opts": {"schema": "pairs", "one_based": ob, "tril": "reflect", "sort": False, "validate": True, "decode": True, "with_x": True},
+                                  "opts": {"schema": "pairs", "one_based": ob, "tril": "reflect", "sort": False, "validate": True, "decode": True, "with_x": True,
+                                           "chrom_repr": reprs[(x // 2) % len(reprs)], "pos_dtype": ("int64", "int32")[(x // 2) % 2]},
                                   "chunks": [[r]], "label": "sweep:" + label})
     return cases
 
@@ -466,7 +515,8 @@ def gen_pixel_cases(rng, widths, n_sets):
         recs = [[rng.randrange(n) + ob, rng.randrange(n) + ob, 10 + 2 * i, 11 + 2 * i, rng.randint(1, 9)] for i in range(m)]
         if ta == "raise" and rng.random() < 0.6:
             recs = [[min(r[0], r[1]), max(r[0], r[1])] + r[2:] for r in recs]
-        opts = {"one_based": ob, "tril": ta, "sort": rng.random() < 0.7, "with_x": rng.random() < 0.7}
+        opts = {"one_based": ob, "tril": ta, "sort": rng.random() < 0.7, "with_x": rng.random() < 0.7,
+                "pos_dtype": rng.choice(["int64", "int32", "uint32"]), "val_dtype": rng.choice(["int", "float"])}
         for cname, chunks in chunkings(rng, recs):
             cases.append({"fn": "sanitize_pixels", "widths": widths, "opts": dict(opts), "chunks": chunks, "label": "pixels:" + cname})
     return cases
@@ -613,6 +663,17 @@ D27_CASES = [
      "chunks": [[[2, 4, 0, 0, 7, 0], [0, 1, 0, 1, 3, 0]]], "label": "D27:drop"},
 ]
 
+# representation corpus: categorical chromosome columns whose category order differs from the bin-table order
+# (names_for gives chrB, chrA, chr10: alphabetical order is chr10, chrA, chrB), all contigs present, no unknown name
+REPR_CASES = [
+    {"fn": "sanitize_records", "widths": [[10, 10], [10, 10, 5], [7]],
+     "opts": {"schema": "pairs", "one_based": 0, "tril": ta_, "sort": False, "validate": True, "decode": True, "with_x": True,
+              "chrom_repr": rp_, "pos_dtype": dt_},
+     "chunks": [[[0, 3, 1, 1, 24, 2], [2, 6, 3, 0, 19, 4], [1, 0, 5, 2, 0, 6], [1, 12, 7, 1, 3, 8]]], "label": "repr:" + rp_}
+    for rp_, ta_, dt_ in [("cat_alpha", "reflect", "int64"), ("cat_rev", "drop", "int32"), ("cat_bin", "reflect", "uint32"),
+                          ("cat_extra", None, "int64"), ("cat_subset", "reflect", "int32"), ("cat_alpha", None, "uint32")]
+]
+
 
 # ------------------------------------------------------------------ judging one case
 def judge(ctx, case, impl, model):
@@ -674,19 +735,25 @@ def judge(ctx, case, impl, model):
             if mo is None:
                 exp = "BadInputError"
             else:
-                rows = [list(r) for r in mo]
+                rows = [list(r) for r in mo[0]]
                 if not o["with_x"]:
                     rows = [r[:2] + [0, 0] + r[4:] for r in rows]
                 if o["sort"]:
                     rows = sorted(rows, key=lambda r: (r[0], r[1]))
-                exp = rows
+                exp = {"rows": rows, "agg": [list(p) for p in mo[1]]}
             ctx.compare("sanitize_pixels", dict(rec, chunk=ch), im, exp)
             want = oracle_pixels(ob, ta, [r if o["with_x"] else r[:2] + [0, 0] + r[4:] for r in ch])
             if want == "error":
                 if im != "BadInputError":
                     ctx.fail(dict(rec, chunk=ch), {"expected": "rejection", "got": im}, None)
-            elif isinstance(im, str) or sorted(im) != sorted(want):
-                ctx.fail(dict(rec, chunk=ch), {"expected": sorted(want)[:8], "got": im if isinstance(im, str) else sorted(im)[:8]}, None)
+            elif isinstance(im, str) or isinstance(im["rows"], str) or sorted(im["rows"]) != sorted(want):
+                ctx.fail(dict(rec, chunk=ch), {"expected": sorted(want)[:8], "got": im if isinstance(im, str) else im["rows"][:8]}, None)
+            else:
+                cnt = Counter()
+                for r in want:
+                    cnt[(r[0], r[1])] += r[4]
+                if im["agg"] != [[a, b_, v] for (a, b_), v in sorted(cnt.items())]:
+                    ctx.fail(dict(rec, chunk=ch), {"expected_sums": sorted(cnt.items())[:8], "got_agg": im["agg"][:8]}, None)
         ctx.case(rec, nontrivial=nb >= 2, kind="sanitize_pixels:" + case["label"])
         return
     # ---- CLI runs
@@ -741,7 +808,7 @@ def run(ctx):
         cases += gen_pixel_cases(rng, widths, 8 if thorough else 3)
         cases += gen_cli_cases(rng, widths, (8 if thorough else 4) if label == "corpus" else (2 if thorough else 1))
         per_table.setdefault(canon_w(widths), [widths, []])[1].extend(cases)
-    for case in D2_CASES + D27_CASES + CLI_CORPUS:
+    for case in D2_CASES + D27_CASES + REPR_CASES + CLI_CORPUS:
         per_table.setdefault(canon_w(case["widths"]), [case["widths"], []])[1].append(case)
     plan = list(per_table.values())
 
